@@ -172,6 +172,11 @@ def run(chk):
             if cls == "ok" and mcls == "ok":
                 mfail.append((c, "%s output is not %s" % (tool, "the document with exactly the selected nodes rewritten" if tool == "xe"
                                                           else "the serialization of exactly the selected nodes in document order"), d[1]))
+            elif cls == "ok" and mcls == "fail":
+                mfail.append((c, "%s reports success on input that is unusable (the document, the path or the replacement is refused by "
+                              "the specification model): an error message and a non-zero status are required" % tool, d[1]))
+            elif cls == "fail" and mcls == "ok":
+                mfail.append((c, "%s refuses usable input" % tool, d[1]))
             else:
                 tdis.append(d)
     chk.cov["outcomes"] = dict(sorted(hist.items()))
